@@ -79,6 +79,9 @@ _LOG = None
 _installed = False
 
 
+KILL_MEM = {}       # container id -> memory held when Container.kill was called (reset per run)
+
+
 def install_transition_seam():
     """Wrap PipelineRuntimeStatus.transition (whatever it is in the tree under
     test) so that every request, accepted or refused, is logged."""
@@ -104,6 +107,18 @@ def install_transition_seam():
         return r
 
     PipelineRuntimeStatus.transition = transition
+    # memory a container held at the moment it was killed (gone afterwards; the model needs it for a forced tick)
+    from eudoxia.executor.container import Container
+    kill0 = Container.kill
+
+    def kill(self, *a, **kw):
+        try:
+            KILL_MEM[self.container_id] = self.get_current_memory_usage()
+        except Exception:  # noqa: BLE001 - observation only
+            pass
+        return kill0(self, *a, **kw)
+
+    Container.kill = kill
     _installed = True
 
 
@@ -576,8 +591,11 @@ class Obs:
 
     def forced_mem(self, c):
         rc = self.real.get(c.label)
-        if rc is None or rc.is_completed():
+        if rc is None:
             return None
+        if rc.is_completed():
+            m = KILL_MEM.get(rc.container_id)
+            return F(m) if isinstance(m, (int, float)) else None
         return F(rc.get_current_memory_usage())
 
     def pool_victims(self, pool):
@@ -669,6 +687,7 @@ def run(scn, rng=None):
     required and the script is recorded into scn).  Returns an outcome dict."""
     import_repo()
     install_transition_seam()
+    KILL_MEM.clear()
     from eudoxia.executor import Executor
     from eudoxia.executor.assignment import Assignment, Suspend
     from eudoxia.executor.container import Container
